@@ -313,6 +313,10 @@ def main():
     cc["scanner.eof"] = conditions(func_body(scanner, r"^func \(s \*scanner\) eof\("))
     cc["pushParseState"] = conditions(func_body(scanner, r"^func \(s \*scanner\) pushParseState\("))
     cc["rescanLiteral"] = conditions(func_body(decode, r"^func \(d \*decodeState\) rescanLiteral\("))
+    # the decoder functions transcribed in JP/Codec/Decode.lean
+    for fn in ("skip", "scanNext", "scanWhile", "value", "array", "object", "literalStore", "valueInterface",
+               "arrayInterface", "objectInterface", "literalInterface", "unmarshal", "init"):
+        cc["decodeState." + fn] = conditions(func_body(decode, r"^func \(d \*decodeState\) " + fn + r"\("))
     facts["codecConditions"] = cc
     lc = {}
     for recv, fn in (("partialDoc", "set"), ("partialDoc", "add"), ("partialDoc", "get"), ("partialDoc", "remove"), ("partialArray", "set"),
